@@ -41,6 +41,14 @@ def variants(rng, f):
         k = rng.randrange(len(g["cnt"]))
         g["cnt"][k][1] = "7" if g["cnt"][k][1] != "7" else "9"
         out.append(("count", g))
+    if f["kind"] == "float" and f["cnt"]:
+        # one count differing in its last decimal places (dyadic factors, so the doubles are exact): equality is identity of
+        # the counts, not closeness; a chain a, a(1+2^-17), a(1+2^-16) makes a tolerance-based comparison non-transitive
+        k = rng.randrange(len(f["cnt"]))
+        for tag, e in (("near20", 20), ("near17", 17), ("near16", 16), ("near40", 40)):
+            g = copy.deepcopy(f)
+            g["cnt"][k][1] = str(Fraction(g["cnt"][k][1]) * (1 + Fraction(1, 2 ** e)))
+            out.append((tag, g))
     if f["kind"] != "bit":
         g = copy.deepcopy(f)
         g["kind"] = "float" if f["kind"] == "count" else "count"
@@ -59,7 +67,7 @@ class C09(vlib.Check):
     props_modules = ["E3fpVerif.Props.C09", "E3fpVerif.Props.C09Db"]
     gen_items = ["fprint_fold"]
     rule = ("pairs and triples built from a seeded fingerprint and its near variants (equal, subset, superset, level, bits, "
-            "one count, other kind), compared with ==/!= in both directions; copies (from_fingerprint, pickle, conversion "
+            "one count, one float count changed by a factor 1+2^-k for k in {16,17,20,40}, other kind), compared with ==/!= in both directions; copies (from_fingerprint, pickle, conversion "
             "to another kind and back) mutated through every public setter; half of the originals are folded (linked) before being "
             "copied and the copy's folded child is then changed. Non-trivial: non-empty operands; distinct by case.")
     trusted_base = ["pickle (compared on every run)"]
@@ -80,6 +88,10 @@ class C09(vlib.Check):
             trip = [rng.choice(vs)[1] for _ in range(3)]
             self.count("triple")
             yield {"t": "triple", "fps": trip}
+            near = {n: g for n, g in vs if n.startswith("near")}
+            if near:
+                self.count("triple:near-chain")
+                yield {"t": "triple", "fps": [f, near["near17"], near["near16"]]}
             self.count("copy")
             yield {"t": "copy", "fp": f, "how": rng.choice(["from_fingerprint", "pickle", "deepcopy"]),
                    "via": rng.choice(KINDS), "mut": rng.choice(["indices", "counts", "level", "bits", "set_prop", "name", "fold"]),
